@@ -6,19 +6,19 @@ package main
 // Built with -race the same driver exposes unsynchronized accesses in the pipelines.
 
 import (
-	"sort"
-	"github.com/itchio/savior/seeksource"
-	"github.com/itchio/wharf/pwr/rediff"
-	"testing/iotest"
 	"bytes"
 	"context"
 	"flag"
 	"fmt"
+	"github.com/itchio/savior/seeksource"
+	"github.com/itchio/wharf/pwr/rediff"
 	"io"
 	"math/rand"
 	"os"
 	"runtime"
+	"sort"
 	"sync"
+	"testing/iotest"
 
 	"github.com/itchio/lake"
 	"github.com/itchio/lake/pools/fspool"
@@ -107,6 +107,34 @@ func tiePair(rng *rand.Rand) (old, new *tree, desc string) {
 	return old, new, "tie-between-old-files"
 }
 
+// textLikePair: a file made of words from a small dictionary, and an edited version of it (words replaced, a
+// paragraph moved, a few inserted).
+func textLikePair(rng *rand.Rand) (old, new []byte) {
+	dict := make([][]byte, 48)
+	for i := range dict {
+		w := make([]byte, 3+rng.Intn(7))
+		for j := range w {
+			w[j] = byte('a' + rng.Intn(26))
+		}
+		dict[i] = append(w, ' ')
+	}
+	var words [][]byte
+	for n := 0; n < 150000+rng.Intn(60000); {
+		w := dict[rng.Intn(len(dict))]
+		words = append(words, w)
+		n += len(w)
+	}
+	edited := append([][]byte{}, words...)
+	for e := 0; e < 40; e++ {
+		edited[rng.Intn(len(edited))] = dict[rng.Intn(len(dict))]
+	}
+	a, b := rng.Intn(len(edited)/2), len(edited)/2+rng.Intn(len(edited)/2)
+	para := append([][]byte{}, edited[a:a+200]...)
+	edited = append(edited[:b:b], append(para, edited[b:]...)...)
+	edited = append([][]byte{[]byte("a new first line\n")}, edited...)
+	return bytes.Join(words, nil), bytes.Join(edited, nil)
+}
+
 func cmdC15(args []string) error {
 	fs := flag.NewFlagSet("c15", flag.ExitOnError)
 	n := fs.Int("n", 6, "cases")
@@ -127,6 +155,10 @@ func cmdC15(args []string) error {
 		} else {
 			old, new, desc = genPair(rng, k, false)
 		}
+		// a text-like file edited in place: its suffix array is full of near-ties and matches that straddle partition
+		// borders, so WHICH of several equally long matches the scanner takes decides the bytes written
+		oldText, newText := textLikePair(rng)
+		old.Files["text/words.txt"], new.Files["text/words.txt"] = oldText, newText
 		root, oldDir, newDir, err := materialisePair(old, new)
 		if err != nil {
 			return err
@@ -167,7 +199,7 @@ func cmdC15(args []string) error {
 				firstPatch = append([]byte{}, patch.Bytes()...)
 			}
 		}
-		op := optParams{Partitions: rng.Intn(5), Concurrency: rng.Intn(3), Comp: compressionOf("NONE", 0)}
+		op := optParams{Partitions: []int{0, 1, 2, 3, 4, 8}[rng.Intn(6)], Concurrency: rng.Intn(3), Comp: compressionOf("NONE", 0)}
 		line.OptParams = fmt.Sprintf("partitions=%d conc=%d", op.Partitions, op.Concurrency)
 		for r := 0; r < *runs; r++ {
 			procs := []int{1, 2, 3, 4, 8, 16}[(k+r)%6]
